@@ -218,6 +218,10 @@ class World:
         self.counter = 0
 
 
+def strip_marks(html):
+    return re.sub(r'marks:[^;}]*;?', '', html)
+
+
 def _base_url(doc):
     repo = os.environ.get('VERIF_REPO', '/repo')
     return 'file://' + repo + '/tests/resources/'
@@ -312,6 +316,10 @@ def run_step(world, step):
                 obs['rewrite_same'] = (hashlib.sha256(again).hexdigest() ==
                                        hashlib.sha256(ret if sink == 'bytes' else (
                                            target.getvalue() if sink == 'fileobj' else open(path, 'rb').read())).hexdigest())
+                if not obs['rewrite_same'] and 'marks:' in doc['html']:
+                    # mechanism test for the listed finding: without the marks the same Document rewrites identically
+                    d2 = HTML(string=strip_marks(doc['html']), base_url=base, media_type=media).render(font_config=fc, **options)
+                    obs['rewrite_same_without_marks'] = d2.write_pdf(None, zoom=zoom, **options) == d2.write_pdf(None, zoom=zoom, **options)
         if sink == 'bytes':
             pdf = ret
         elif sink == 'fileobj':
@@ -768,15 +776,26 @@ def zoom_render(case):
     for z in case['zooms']:
         pdf = HTML(string=case['html'], base_url=_base_url(None)).write_pdf(zoom=z, uncompressed_pdf=True, **opts)
         out['fresh'].append(read_pdf_geometry(pdf))
-    document = HTML(string=case['html'], base_url=_base_url(None)).render(**opts)
+    # one Document written at every zoom.  With crop/cross marks every write adds a layer (listed finding): the strict
+    # comparison is then made on the document without marks, and the effect of the marks is recorded separately.
+    has_marks = 'marks:' in case['html']
+    html = strip_marks(case['html']) if has_marks else case['html']
+    document = HTML(string=html, base_url=_base_url(None)).render(**opts)
     out['layout'] = layout_fingerprint(document)
     for z in case['zooms']:
         pdf = document.write_pdf(zoom=z, uncompressed_pdf=True, **opts)
         g = read_pdf_geometry(pdf)
         out['same_document'].append({'pages': [{k: p[k] for k in ('MediaBox', 'rest', 'ctm')} for p in g['pages']]})
+    out['same_document_is_without_marks'] = has_marks
+    if has_marks:
+        out['fresh_without_marks'] = [read_pdf_geometry(HTML(string=html, base_url=_base_url(None)).write_pdf(
+            zoom=z, uncompressed_pdf=True, **opts)) for z in case['zooms']]
+        d2 = HTML(string=case['html'], base_url=_base_url(None)).render(**opts)
+        w = [d2.write_pdf(zoom=1, uncompressed_pdf=True, **opts) for _ in range(2)]
+        out['marks_accumulate'] = w[0] != w[1]
     # keep the result small: identical op lists are sent once
     seen = {}
-    for group in (out['fresh'], out['same_document']):
+    for group in (out['fresh'], out['same_document'], out.get('fresh_without_marks', [])):
         for g in group:
             for p in g['pages']:
                 key = json.dumps(p['rest'])
@@ -835,11 +854,17 @@ def copy_render(case):
         logging.getLogger(name).setLevel(logging.CRITICAL + 1)
     import pdfread
     from weasyprint import HTML
-    document = HTML(string=case['html'], base_url=_base_url(None)).render()
+    has_marks = 'marks:' in case['html']
+    marks_effect = None
+    if has_marks:      # listed finding: each write adds a marks layer; strict comparison on the document without marks
+        d0 = HTML(string=case['html'], base_url=_base_url(None)).render()
+        w = [d0.write_pdf(pdf_identifier=b'c19'), d0.copy(d0.pages[:1]).write_pdf(pdf_identifier=b'c19'), d0.write_pdf(pdf_identifier=b'c19')]
+        marks_effect = w[0] != w[2]
+    document = HTML(string=strip_marks(case['html']) if has_marks else case['html'], base_url=_base_url(None)).render()
     full = document.write_pdf(pdf_identifier=b'c19', uncompressed_pdf=True)
     d = pdfread.parse(full)
     fullp = [([_num(x) for x in d.resolve(p['MediaBox'])],) + _page_text_ops(d, p) for p in d.pages()]
-    out = dict(npages=len(document.pages), full=fullp, copies=[])
+    out = dict(npages=len(document.pages), full=fullp, copies=[], marks_effect=marks_effect)
     before = layout_fingerprint(document)
     for sel in case['sels']:
         sel = [i % len(document.pages) for i in sel] if document.pages else []
@@ -1026,9 +1051,14 @@ def probe(case):
         d = HTML(string='<p>abc<p style="break-before:page">def').render()
         ok = d.write_pdf(pdf_variant='pdf/ua-1', **ident)
         try:
-            d.copy(d.pages[:1]).write_pdf(pdf_variant='pdf/ua-1', **ident)
-            return dict(raises=False)
-        except AttributeError as exc:
+            import pdfread
+            pdf = d.copy(d.pages[1:]).write_pdf(pdf_variant='pdf/ua-1', **ident)
+            dd = pdfread.parse(pdf)
+            text = b''.join(dd.page_content(p) or b'' for p in dd.pages())
+            full = pdfread.parse(ok)
+            return dict(raises=False, copy_ok=len(dd.pages()) == 1 and len(full.pages()) == 2 and not dd.problems and
+                        'StructTreeRoot' in (dd.root or {}), npages=len(dd.pages()))
+        except Exception as exc:
             return dict(raises=True, exc=_exc_info(exc), original_ok=len(ok) > 0)
     if name == 'attachment-clock':
         import datetime as dt
